@@ -273,3 +273,96 @@ def replay(path):
         print('VIOLATION property=C15 replay=%s' % path)
         return 1
     return 0
+
+
+# ---------------------------------------------------------------------------
+# Assembly programs with FUNC/PROC directives (the assembler's own symbol path, independent of xcmp)
+# ---------------------------------------------------------------------------
+
+def check_tour(items, expected, scratch):
+    """Tour program whose blocks are FUNC/PROC/plain labels: table = FUNC/PROC names in source order at the addresses
+    the decode walk assigns; trace consumed under the guidance of the ISA reference."""
+    from .. import asmgen
+    sp = os.path.join(scratch, 'p.S')
+    open(sp, 'w').write(asmgen.render(items))
+    img = os.path.join(scratch, 'p.bin')
+    ok, r = toolchain.assemble(sp, img, scratch)
+    if not ok:
+        return 'fail', 'rejected: hexasm did not assemble a tour program: %r' % r.stderr[:160], {}
+    fb = open(img, 'rb').read()
+    parts = split_file(fb)
+    if parts is None:
+        return 'fail', 'table: header word does not fit the file', {}
+    hw, image, dbg = parts
+    table = parse_debug(dbg)
+    if table is None:
+        return 'fail', 'table: malformed symbol table', {}
+    w = asmgen.walk(items, image)
+    if not w.ok:
+        return 'fail', 'layout: ' + w.why, {}
+    exp = [(it[1], w.labels[it[1]]) for it in items if it[0] in ('func', 'proc')]
+    if table != exp:
+        return 'fail', 'table: symbols %r, the source defines %r' % (table[:8], exp[:8]), {}
+    tr = os.path.join(scratch, 'ref.trace')
+    rr = subprocess.run([build.exe('refrun'), img, '--trace', tr, '--max-steps', '200000'], stdout=subprocess.PIPE, cwd=scratch)
+    ro = json.loads(rr.stdout.decode())
+    if ro['status'] != 'exited' or bytes.fromhex(ro['out']) != expected:
+        return 'fail', 'run: the tour printed %s (%s) on the ISA reference, expected %s' % (ro['out'], ro['status'], expected.hex()), {}
+    steps = read_ref_trace(tr)
+    hs = subprocess.run([toolchain.tool('hexsim'), img, '-t'], stdin=subprocess.DEVNULL, stdout=subprocess.PIPE, stderr=subprocess.PIPE, cwd=scratch, timeout=120)
+    if not table:
+        return 'ok', '', dict(symbols=0, callees=0, steps=len(steps))     # without symbols hexsim prints a different (unlabelled) format: nothing to check here
+    ok2, why, entries = consume_trace(hs.stdout, steps, table)
+    if not ok2:
+        return 'fail', 'trace: ' + why, {}
+    # entries shown with offset 0 must be exactly the FUNC/PROC blocks in execution order
+    order = [steps[i][0] for i in range(len(steps))]
+    inv = {o: n for n, o in table}
+    visited = [inv[a] for a in order if a in inv]
+    if entries != visited:
+        return 'fail', 'entries: offset-0 lines %r, blocks entered %r' % (entries[:10], visited[:10]), {}
+    return 'ok', '', dict(symbols=len(table), callees=len(set(visited)), steps=len(steps))
+
+
+_gen_case_x = gen_case
+
+
+def gen_case(rng, stats, extra):          # noqa: F811
+    if rng.random() >= 0.85:
+        from .. import asmgen
+        items, expected = asmgen.gen_tour(rng, funcproc=True)
+        with driver.Scratch('c15t') as scratch:
+            verdict, why, info = check_tour(items, expected, scratch)
+        src = asmgen.render(items)
+        stats.case(key=src, classes=['family:asm-tour', 'verdict:' + verdict, 'symbols:%s' % min(info.get('symbols', 0), 9)],
+                   nontrivial=(verdict == 'ok' and info.get('symbols', 0) >= 3 and info.get('callees', 0) >= 2), sample={'family': 'asm-tour', 'source': src[:500], 'info': info})
+        if verdict == 'fail':
+            raise hyp.Failure(dict(kind='tour', items=[list(i) for i in items], expected=expected.hex()), why)
+        return
+    return _gen_case_x(rng, stats, extra)
+
+
+_replay_case_x = replay_case
+
+
+def replay_case(case):                    # noqa: F811
+    if case.get('kind') == 'tour':
+        with driver.Scratch('c15r') as s:
+            v, why, _ = check_tour([tuple(i) for i in case['items']], bytes.fromhex(case['expected']), s)
+        return v, why
+    return _replay_case_x(case)
+
+
+_report_x = report
+
+
+def report(ctx, case, why):               # noqa: F811
+    if case.get('kind') == 'tour':
+        res = [replay_case(case) for _ in range(3)]
+        if sum(1 for v, _ in res if v == 'fail') < 3:
+            ctx.flaky.append({'why': why})
+            return
+        from .. import asmgen
+        ctx.violation(dict(case, source=asmgen.render([tuple(i) for i in case['items']])), res[-1][1])
+        return
+    return _report_x(ctx, case, why)
